@@ -290,10 +290,10 @@ End HMapP.
 Lemma timpl_eqb_spec x y : timpl_eqb x y = true <-> x = y.
 Proof. destruct x, y; simpl; split; intros H; try reflexivity; try discriminate. Qed.
 
-Lemma macro_impls_perm p1 p2 mods : valid_place p1 -> valid_place p2 ->
-  Permutation (macro_impls p1 mods) (macro_impls p2 mods).
+Lemma macro_impls_hashset_perm p1 p2 mods : valid_place p1 -> valid_place p2 ->
+  Permutation (macro_impls_hashset p1 mods) (macro_impls_hashset p2 mods).
 Proof.
-  intros V1 V2. unfold macro_impls.
+  intros V1 V2. unfold macro_impls_hashset.
   generalize (collect_perm timpl timpl_eqb p1 p2 [IFromStr; IDisplay] V1 V2).
   generalize (hs_collect timpl timpl_eqb p1 [IFromStr; IDisplay]).
   generalize (hs_collect timpl timpl_eqb p2 [IFromStr; IDisplay]).
@@ -303,9 +303,9 @@ Proof.
   - unfold hs_remove. apply filter_perm; assumption.
 Qed.
 
-Lemma has_impl_order_irrelevant p1 p2 mods i : valid_place p1 -> valid_place p2 ->
-  native_has_impl (macro_impls p1 mods) i = native_has_impl (macro_impls p2 mods) i.
-Proof. intros V1 V2. unfold native_has_impl. apply mem_perm. apply macro_impls_perm; assumption. Qed.
+Lemma has_impl_hashset_order_irrelevant p1 p2 mods i : valid_place p1 -> valid_place p2 ->
+  native_has_impl (macro_impls_hashset p1 mods) i = native_has_impl (macro_impls_hashset p2 mods) i.
+Proof. intros V1 V2. unfold native_has_impl. apply mem_perm. apply macro_impls_hashset_perm; assumption. Qed.
 
 Lemma perm_small {A} (v v' : list A) : Permutation v v' -> List.length v <= 1 -> v = v'.
 Proof.
@@ -318,6 +318,55 @@ Qed.
 Lemma native_dedup_small n v v' e : Permutation v v' -> List.length v <= 1 ->
   native_eqb (n, v) e = native_eqb (n, v') e.
 Proof. intros HP HL. rewrite (perm_small v v' HP HL). reflexivity. Qed.
+
+
+(* the sorted-set code (fix 9ffca46): the Vec is determined by the SET *)
+Lemma bs_insert_sorted x s : In s all_sorted_impls -> In (bs_insert x s) all_sorted_impls.
+Proof.
+  intros H. simpl in H. repeat (destruct H as [H|H]; [subst s; destruct x; vm_compute; tauto|]). destruct H.
+Qed.
+
+Lemma bs_remove_sorted x s : In s all_sorted_impls -> In (bs_remove x s) all_sorted_impls.
+Proof.
+  intros H. simpl in H. repeat (destruct H as [H|H]; [subst s; destruct x; vm_compute; tauto|]). destruct H.
+Qed.
+
+Lemma macro_impls_sorted mods : In (macro_impls mods) all_sorted_impls.
+Proof.
+  unfold macro_impls.
+  assert (H0 : In (fold_left (fun s x => bs_insert x s) [IFromStr; IDisplay] []) all_sorted_impls)
+    by (vm_compute; tauto).
+  revert H0. generalize (fold_left (fun s x => bs_insert x s) [IFromStr; IDisplay] []).
+  induction mods as [|[b i] r IH]; intros s H; simpl; [exact H|].
+  apply IH. destruct b; simpl; [apply bs_insert_sorted|apply bs_remove_sorted]; exact H.
+Qed.
+
+Lemma sorted_impls_ext s s' : In s all_sorted_impls -> In s' all_sorted_impls ->
+  (forall i, native_has_impl s i = native_has_impl s' i) -> s = s'.
+Proof.
+  intros H H' E.
+  pose proof (E IFromStr) as E1. pose proof (E IDisplay) as E2. pose proof (E IDefault) as E3. clear E.
+  simpl in H, H'.
+  repeat (destruct H as [H|H]; [subst s|]); try (destruct H);
+  repeat (destruct H' as [H'|H']; [subst s'|]); try (destruct H');
+  vm_compute in E1, E2, E3; try reflexivity; try discriminate.
+Qed.
+
+Lemma macro_impls_set_determines_vec mods mods' :
+  (forall i, native_has_impl (macro_impls mods) i = native_has_impl (macro_impls mods') i) ->
+  macro_impls mods = macro_impls mods'.
+Proof. intros E. apply sorted_impls_ext; [apply macro_impls_sorted|apply macro_impls_sorted|exact E]. Qed.
+
+Lemma impls_eqb_refl v : impls_eqb v v = true.
+Proof. induction v as [|x v IH]; simpl; [reflexivity|]. rewrite IH. destruct x; reflexivity. Qed.
+
+Lemma macro_impls_dedup n mods mods' :
+  (forall i, native_has_impl (macro_impls mods) i = native_has_impl (macro_impls mods') i) ->
+  assign_natives [] [(n, macro_impls mods); (n, macro_impls mods')] = [0; 0].
+Proof.
+  intros E. rewrite (macro_impls_set_determines_vec mods mods' E).
+  simpl. unfold native_eqb. simpl. rewrite String.eqb_refl, impls_eqb_refl. reflexivity.
+Qed.
 
 (* ------------------------------------------------------------------ *)
 (* sorted maps                                                          *)
